@@ -120,7 +120,7 @@ def case_structure(case):
         modes = np.array([a.ravel() for a in np.meshgrid(*axes, indexing="ij")])
         r.close("Fourier modes == integer multiples of delta_k = 2 pi / period * [1, anis]", np.array(g.modes), modes, rtol=1e-12, atol=1e-13, **extra)
         kn = np.linalg.norm(modes, axis=0)
-        w = np.sqrt(np.asarray(m.spectrum(kn), dtype=float) * np.prod(dk))
+        w = np.sqrt(m.var * np.asarray(m.spectral_density(kn), dtype=float) * np.prod(dk))
         z1, z2 = np.array(g._z_1), np.array(g._z_2)
         ph = modes.T @ iso(cfg, x)
         r.close("Fourier field == sum sqrt(S(|k|) prod(delta_k)) (z1 cos(k.Tx) + z2 sin(k.Tx))", out, (w * z1) @ np.cos(ph) + (w * z2) @ np.sin(ph), rtol=1e-9, atol=1e-10, **extra)
@@ -280,7 +280,7 @@ def case_fourier(case):
         dk = 2 * math.pi / per * anis
         axes = [(np.arange(n) - n / 2) * dk[i] for i, n in enumerate(mo)]
         modes = np.array([a.ravel() for a in np.meshgrid(*axes, indexing="ij")])
-        w2 = np.asarray(m.spectrum(np.linalg.norm(modes, axis=0)), dtype=float) * np.prod(dk)
+        w2 = m.var * np.asarray(m.spectral_density(np.linalg.norm(modes, axis=0)), dtype=float) * np.prod(dk)  # documented: spectrum = var * spectral density
         Tsum = (w2[:, None] * np.cos(modes.T @ H)).sum(axis=0)
         # the generator's own weights
         g = gs.field.generator.Fourier(m, period=list(per), mode_no=mo, seed=1)
@@ -294,7 +294,43 @@ def case_fourier(case):
     return r.done(outcome=[round(v, 8) for v in D0])
 
 
-GROUPS = {"nugget": case_nugget, "structure": case_structure, "ensemble": case_ensemble, "rate": case_rate, "fourier": case_fourier}
+def case_dimchange(case):
+    """a model whose dimension was changed after construction generates the fields of the model
+    constructed in that dimension (differential oracle: freshly built object)"""
+    r = R()
+    cfg = case["cfg"]
+    d, d0, seed = cfg["dim"], case["dim_from"], case["seed"]
+    fresh = make_model(cfg)
+    kw = dict(dim=d0, var=cfg.get("var", 1.6), len_scale=cfg.get("len_scale", 2.0))
+    kw.update(cfg["opts"])
+    m = getattr(gs, cfg["cls"])(**kw)
+    # warm every lazily built helper in the old dimension, then change the dimension in place
+    m.spectrum(np.array([0.3, 1.0]))
+    if d0 > 1 or True:
+        gs.field.generator.RandMeth(m, mode_no=8, seed=1)
+    m.dim = d
+    if cfg.get("aniso") and d > 1:
+        m.anis, m.angles = ANIS[d], ANG[d]
+    extra = {"cls": cfg["cls"], "dim": d, "dim_from": d0, "gen": cfg["gen"]}
+    r.true("model with changed dimension == model built in that dimension", m == fresh, **extra)
+    x = np.random.RandomState(5).uniform(-8, 8, size=(d, 9))
+    kk = np.array([0.0, 0.2, 1.0, 3.0])
+    r.close("spectrum of the changed model == spectrum of the fresh model", m.spectrum(kk), fresh.spectrum(kk), rtol=1e-10, atol=1e-14, **extra)
+    if cfg["gen"] == "RandMeth":
+        a = gs.SRF(m, seed=seed, mode_no=cfg["mode_no"])
+        b = gs.SRF(fresh, seed=seed, mode_no=cfg["mode_no"])
+        r.close("wave vectors of the changed model == those of the fresh model (same seed)", np.array(a.generator._cov_sample), np.array(b.generator._cov_sample), rtol=1e-10, atol=1e-12, **extra)
+    else:
+        per = cfg["period"][:d]
+        a = gs.SRF(m, generator="Fourier", period=per, mode_no=cfg["mode_no"][:d], seed=seed)
+        b = gs.SRF(fresh, generator="Fourier", period=per, mode_no=cfg["mode_no"][:d], seed=seed)
+        r.close("Fourier weights of the changed model == those of the fresh model", np.array(a.generator._spectrum_factor), np.array(b.generator._spectrum_factor), rtol=1e-10, atol=1e-14, **extra)
+    fa, fb = np.array(a(x)), np.array(b(x))
+    r.close("field of the changed model == field of the fresh model (same seed)", fa, fb, rtol=1e-9, atol=1e-10, **extra)
+    return r.done(outcome=[round(float(v), 8) for v in fb[:2]])
+
+
+GROUPS = {"dimchange": case_dimchange, "nugget": case_nugget, "structure": case_structure, "ensemble": case_ensemble, "rate": case_rate, "fourier": case_fourier}
 
 
 def pairs():
@@ -342,6 +378,23 @@ def run(chk):
             for s in (s0, s0 + 1):
                 stc.append({"cfg": cfg, "seed": s})
             fc.append({"cfg": cfg})
+    # TPL models (variance = intensity * factor) under the Fourier generator
+    for cls, d, alt in (("TPLGaussian", 2, True), ("TPLStable", 1, False), ("TPLExponential", 3, False)):
+        cfg = {"cls": cls, "dim": d, "opts": opts_for(cls, d, alt), "aniso": d == 2, "gen": "Fourier", "period": [12.0, 9.0, 7.0], "mode_no": [8, 6, 4][:d], "len_scale": 1.5}
+        stc.append({"cfg": cfg, "seed": s0})
+        fc.append({"cfg": cfg})
+    # dimension changed after construction
+    dcs = []
+    for cls, d in pairs():
+        for d0 in cf.valid_dims(cls):
+            if d0 == d or (tier == "quick" and abs(d0 - d) != 1):
+                continue
+            for gen in ("RandMeth", "Fourier"):
+                if tier == "quick" and gen == "Fourier" and cls not in ("Gaussian", "Cubic", "Spherical", "Matern", "TPLGaussian", "Rational"):
+                    continue
+                cfg = {"cls": cls, "dim": d, "opts": opts_for(cls, max(d, d0)), "aniso": d > 1 and d0 > d, "gen": gen, "mode_no": 16 if gen == "RandMeth" else [6, 4, 4], "period": [12.0, 9.0, 7.0], "len_scale": 1.5}
+                dcs.append({"cfg": cfg, "dim_from": d0, "seed": s0 + 3})
+    chk.run("dimchange", case_dimchange, dcs, rule="every (class, dim_from -> dim) with both dimensions valid (quick: neighbouring dimensions) x generator: the model is built and used in dim_from, its dim is set in place; spectrum, samples and field equal those of the model built in the target dimension with the same seed", chunk=2)
     chk.run("structure", case_structure, stc, rule="every valid (class, dim) x {default, alternative shape parameter} x {isotropic, anisotropic+rotated} x seeds (+ nugget / mean configuration; forced inversion; Fourier generator): returned field == documented mode sum evaluated from the sample arrays with the oracle's coordinate transform", chunk=4)
     chk.run("ensemble", case_ensemble, enc, rule=f"complete seed window [{s0}, {s0 + S}) per configuration x mode numbers (100, 1000 = library default; thorough 100..1600) x sampling (auto / forced inversion / forced mcmc): laws of amplitudes and directions (6 sigma), radii under inversion (DKW at 1e-9), exact conditional covariance on the lag lattice: normalised error <= 3, unbiasedness, anisotropy scaling, ensemble mean and variance", chunk=1)
     nc = [{"cfg": {"cls": c, "dim": d, "opts": opts_for(c, d), "aniso": a, "gen": "RandMeth", "nugget": 0.4}, "seed0": s0, "nseeds": S} for c, d, a in (("Gaussian", 1, False), ("Exponential", 2, True), ("Gaussian", 3, True))]
